@@ -385,6 +385,8 @@ type concOps struct {
 	destroys    []uint32
 	destroyGate chan bool
 	inDestroy   int
+	flushGate   chan bool // FlushOp.Flush blocks on it (a slow cancel inside the implementation)
+	inFlush     int
 }
 
 func (o *concOps) reqOf(req *go9p.SrvReq) *concReq {
@@ -580,7 +582,14 @@ func (o *concOpsFlush) Flush(target *go9p.SrvReq) {
 	cr := s.reqInfo[tid]
 	wr := s.worker[g]
 	seen := cr.called
+	fg := o.flushGate
+	if fg != nil {
+		o.inFlush++
+	}
 	s.mu.Unlock()
+	if fg != nil {
+		<-fg
+	}
 	// a sane implementation only cancels requests it has been handed
 	if seen && cr.flushCancel() {
 		target.Flush()
@@ -1325,6 +1334,63 @@ func concFlushAtR3(maxpend int, flushop bool) string {
 	return s.finish("flushr3", flushed)
 }
 
+// kind "slowflushop": a Tflush whose FlushOp is slow inside the implementation must not delay
+// requests with other tags (only Tversion is handled in the receive goroutine)
+func concSlowFlushOp(maxpend int) string {
+	s := newConcSession(maxpend, true)
+	s.setup()
+	const tt, ft = 1200, 1201
+	flushed := map[uint16]bool{tt: true}
+	flushCancelTags.Store(uint16(tt), false)
+	defer flushCancelTags.Delete(uint16(tt))
+	s.send(statReq(tt, 0))
+	cr := s.waitReq(tt, 2*time.Second)
+	deadline := time.Now().Add(2 * time.Second)
+	for cr != nil && time.Now().Before(deadline) {
+		s.mu.Lock()
+		c := cr.called
+		s.mu.Unlock()
+		if c {
+			break
+		}
+		time.Sleep(20 * time.Microsecond)
+	}
+	gate := make(chan bool)
+	s.mu.Lock()
+	s.ops.flushGate = gate
+	s.mu.Unlock()
+	s.send(flushReq(ft, tt))
+	deadline = time.Now().Add(2 * time.Second)
+	for time.Now().Before(deadline) {
+		s.mu.Lock()
+		n := s.ops.inFlush
+		s.mu.Unlock()
+		if n > 0 {
+			break
+		}
+		time.Sleep(20 * time.Microsecond)
+	}
+	before := len(s.conn.frames())
+	for i := 0; i < 3; i++ {
+		s.send(statReq(uint16(1210+i), 0))
+	}
+	s.releaseRange(1210, 1213, 3, "independent-of-the-flush")
+	if !s.waitReplies(before+3, 4*time.Second) {
+		s.mu.Lock()
+		s.note("C08.request_delayed_by_slow_FlushOp_of_another_tag")
+		s.mu.Unlock()
+	}
+	s.mu.Lock()
+	s.ops.flushGate = nil
+	s.mu.Unlock()
+	close(gate)
+	if cr != nil {
+		cr.released <- concAction{answers: 1, payload: []byte("target-after-slow-flush")}
+	}
+	s.waitReplies(before+5, 2*time.Second)
+	return s.finish("slowflushop", flushed)
+}
+
 func modeSrvconc(tier string, args []string) {
 	bufMode = len(args) > 0 && args[0] == "buf"
 	rounds := 6
@@ -1360,6 +1426,7 @@ func modeSrvconc(tier string, args []string) {
 				jobs = append(jobs, func() string { return concFlushAtR3(mp, fo) })
 			}
 			jobs = append(jobs, func() string { return concSlowDestroy(mp) })
+			jobs = append(jobs, func() string { return concSlowFlushOp(mp) })
 			for tk := 0; tk <= 4; tk++ {
 				tk := tk
 				fo := (r+tk)%2 == 0
